@@ -86,7 +86,9 @@ class C18(Property):
                   "verified), X-Request-Uri overrides the signed path/query, bodies of unknown length are not decrypted.")
     rule = ("jwt cases: 3-8 requests through one Authorize middleware (secret, optional previous secret), each a valid token or "
             "one of ~45 single-field mutation classes; cs/crypt cases: one signed (optionally AES-ECB encrypted) request with at "
-            "most two mutations out of ~40 classes. non-trivial = jwt case with both an accepted and a rejected token that "
+            "most two mutations out of ~55 classes; eng cases: the same request sent to one route of a real rest.Server "
+            "with 6 route groups (JWT / signature / both / public siblings / prefixes); hdr cases: one generated "
+            "header string through httpx.ParseHeader. non-trivial = jwt case with both an accepted and a rejected token that "
             "parses, or a cs case whose secret decrypts (signature actually compared), or a crypt case whose body is valid "
             "base64; distinct = canonical JSON hash of the case")
     trusted_base = [
@@ -96,7 +98,11 @@ class C18(Property):
         "harness classification of the bytes it sent (harness/cmd/c18/main.go: classify, buildCS) and the interning of "
         "strings to identifiers in tools/props/c18.py",
         "content security reads time.Now(): the harness uses the wall clock second, retried until stable across the request",
-        "middleware composition of rest/engine.go (Authorize, then LimitContentSecurityHandler) is mirrored, not executed",
+        "eng cases run a real rest.Server (engine.bindRoutes binds onto our router; Start fails on an invalid port "
+        "right after binding, nothing listens); cs/jwt/crypt cases mirror the composition of rest/engine.go",
+        "constants (header/attribute names, registered claims, verified methods, ...) are re-extracted by "
+        "tools/c18consts.py (regex over the Go declarations) into coq/gen/C18Consts.v",
+        "ParseHeader model covers ASCII white space only",
     ]
     assumptions = [
         "HMAC, RSA-PKCS1v15 and AES are abstract functions; unforgeability is a computational assumption (explicit "
